@@ -24,7 +24,7 @@ CONFIG = {
     'quick': {'shards': 16, 'budget_s': 150, 'n_mols': 1200,
               'floors': {'evaluations': 6000, 'distinct_nontrivial': 900, 'applications.with-match': 1500, 'products.checked': 3000,
                          'recorder.patcher-calls': 3000, 'branch.deleted-fragment': 150, 'branch.masked': 15, 'branch.new-atom': 300,
-                         'branch.identity': 200, 'documented.deprotections': 25, 'reactor.reactions': 60, 'numbering.compared': 500, 'reactor.with-spectators': 150, 'reactor.composed': 150}},
+                         'branch.identity': 200, 'documented.deprotections': 25, 'reactor.reactions': 60, 'numbering.compared': 500, 'reactor.with-spectators': 150, 'reactor.composed': 150, 'branch.stereo-requested': 40}},
     'thorough': {'shards': 16, 'budget_s': 1800, 'n_mols': 4200,
                  'floors': {'evaluations': 25000, 'distinct_nontrivial': 3000, 'applications.with-match': 6000,
                             'products.checked': 15000, 'recorder.patcher-calls': 15000, 'branch.deleted-fragment': 500,
@@ -53,10 +53,28 @@ TEMPLATES = [
     ('no-delete', '[C:1][Cl,Br,I:2]', '[A:1][O:3]', {'delete_atoms': False, 'fix_aromatic_rings': False}, ('new-atom', 'delete-off', 'valence-free')),
     ('stereo-override', '[C;h1;z1:1]([C:2])([O:3])[N:4]', '[A;@@:1]([A:2])([A:3])[A:4]', {}, ('stereo-override',)),
     ('stereo-keep', '[C;h1;z1:1]([C:2])([O;D1:3])', '[A:1]([A:2])[A:3][C:9]', {}, ('stereo-keep', 'new-atom')),
+    ('stereo-override-inverse', '[C;h1;z1:1]([C:2])([O:3])[N:4]', '[A;@:1]([A:2])([A:3])[A:4]', {}, ('stereo-override',)),
+    ('stereo-override-quaternary', '[C;D4;z1:1]([C;D1:2])([O:3])([N:4])[C;D2,D3:5]', '[A;@:1]([A:2])([A:3])([A:4])[A:5]', {}, ('stereo-override',)),
+    ('epoxide-stereo-at-closing-atom', '[C:1]1[O:2][C;h1:3]1[C:4]', '[A:1]1[A:2][A;@:3]1[A:4]', {}, ('stereo-override',)),
+    ('epoxide-stereo-at-closing-atom-inverse', '[C:1]1[O:2][C;h1:3]1[C:4]', '[A:1]1[A:2][A;@@:3]1[A:4]', {}, ('stereo-override',)),
+    ('epoxide-stereo-at-opening-atom', '[C;h1:1]1([C:4])[O:2][C:3]1', '[A;@:1]1([A:4])[A:2][A:3]1', {}, ('stereo-override',)),
+    ('halohydrin-closure', '[C;h1:1]([C:5])([O;D1:2])[C:3][Cl,Br:4]', '[A;@:1]1([A:5])[A:2][A:3]1', {}, ('stereo-override', 'deleted')),
+    ('aziridine-stereo-closing', '[C:1]1[N:2][C;h1:3]1[C:4]', '[A:4][A;@@:3]1[A:2][A:1]1', {}, ('stereo-override',)),
+    ('carboxylate-protonation', '[O;-;D1:1][C:2]=[O:3]', '[A:1][A:2]=[A:3]', {}, ('charge',)),
+    ('n-oxide-reduction', '[N;+:1][O;-;D1:2]', '[A:1]', {}, ('charge', 'deleted')),
+    ('ammonium-deprotonation', '[N;+;h1,h2,h3:1][C:2]', '[A:1][A:2]', {}, ('charge',)),
+    ('alkoxide-protonation', '[O;-;D1:1][C;z1:2]', '[A:1][A:2]', {}, ('charge',)),
+    ('carbanion-quench', '[C;-:1][C:2]', '[A:1][A:2]', {}, ('charge',)),
     ('ring-opening', '[C:1]1[O:2][C:3]1', '[A:1]([O:4])[A:3][O:2]', {}, ('new-atom', 'order-change')),
     ('n-oxide', '[N;a;D2;h0:1]', '[A+:1][O-:2]', {}, ('new-atom', 'charge')),
     ('radical-formation', '[C;z1;h3:1][C:2]', '[A:1][A:2] |^1:0|', {}, ('radical',)),
 ]
+
+TARGETED = ['C1OC1C', 'CC1OC1C', 'C[C@H]1O[C@@H]1C', 'C1OC1c1ccccc1', 'CC1(C)OC1C', 'C1OC1CC=C', 'CC(O)CCl', 'OC(C)CBr', 'C[C@H](O)CCl', 'OC(CBr)c1ccccc1',
+            'C1NC1C', 'CC1NC1CC', 'CN1CC1C', 'CC(=O)[O-]', '[O-]C(=O)c1ccccc1', '[O-]C(=O)CCC([O-])=O', 'C[N+](C)(C)[O-]', '[O-][n+]1ccccc1', 'C[NH3+]', 'CC[NH+](C)C',
+            '[NH3+]CC([O-])=O', 'CC[O-]', 'C[O-].[Na+]', '[CH2-]C', 'C[CH-]C', 'CC(O)N', 'C[C@H](O)N', 'C[C@@H](O)N', 'CCC(O)NC', 'CC(O)(N)CC', 'C[C@](O)(N)CC',
+            'NC(O)C1CC1', 'OC(N)c1ccccc1', 'CC(Cl)C(C)O', 'ClCC(O)C1CCCCC1', 'CC(O)C(C)=O', 'C[C@H](O)C(=O)O', 'OCC1OC1', 'C1OC1C1CO1']
+
 
 # ---- boundary recorder -------------------------------------------------------------------------------------------------------
 REC = {'calls': []}
@@ -206,6 +224,24 @@ def frame_check(ctx, name, pattern, replacement, kwargs, rec, src, tags):
         if b.order != want and not ({b.order, want} <= {1, 2, 4}):
             ctx.violation('named-bond-wrong-order', '%s on %s: %d-%d is %d, template %d' % (name, src, mo[n], mo[k], b.order, want), w)
             return
+    # requested configuration: the replacement, read as a pattern, must match the product on exactly the atoms it was written to
+    if any(getattr(ra, 'stereo', None) is not None for _, ra in replacement.atoms()):
+        ctx.count('branch.stereo-requested')
+        want = {n: mo[n] for n in replacement._atoms}
+        try:
+            found = any(all(d.get(n) == k for n, k in want.items()) for d in replacement.get_mapping(new, automorphism_filter=False, _cython=False))
+        except Exception as e:
+            ctx.violation('replacement-not-matchable/%s' % type(e).__name__, '%s on %s: %r' % (name, src, e), w)
+            return
+        if not found:
+            unlabelled = all(new._atoms[mo[n]].stereo is None for n, ra in replacement.atoms() if getattr(ra, 'stereo', None) is not None)
+            if unlabelled and any(mo[n] not in new.chiral_tetrahedrons and new._atoms[mo[n]].stereo is None
+                                  for n, ra in replacement.atoms() if getattr(ra, 'stereo', None) is not None):
+                ctx.count('branch.stereo-requested-on-non-stereogenic-atom')      # the label cannot exist there
+            else:
+                ctx.violation('requested-configuration-not-in-product', '%s on %s -> %s: the replacement does not match the product on its own atoms %s'
+                              % (name, src, new, sorted(want.items())), w)
+                return
     # named atoms not bonded in the replacement must not stay bonded
     rep_pairs = {frozenset((mo[n], mo[k])) for n, k, _ in replacement.bonds()}
     for n in replacement._atoms:
@@ -501,6 +537,19 @@ def worker(ctx):
                 pass
     if ctx.shard == 0 or ctx.tier == 'thorough' and ctx.shard < 4:
         reactor_checks(ctx, rng, None)
+    # substrates written for the stereo / charge / ring templates: every template on every one of them
+    k = 0
+    for s in TARGETED:
+        try:
+            m = smiles(s)
+            m.kekule()
+            m.thiele()
+        except Exception:
+            continue
+        for name, pat, rep, kwargs, tags in TEMPLATES:
+            k += 1
+            if ctx.mine(k):
+                apply_template(ctx, name, pat, rep, kwargs, tags, m, s, rng, numbering=True)
     c = T.corpus()
     ids = list(range(len(c)))
     _random.Random(ctx.seed).shuffle(ids)
@@ -518,7 +567,7 @@ def worker(ctx):
             continue
         if m.check_valence():
             continue
-        for name, pat, rep, kwargs, tags in rng.sample(TEMPLATES, 6):
+        for name, pat, rep, kwargs, tags in rng.sample(TEMPLATES, 9):
             apply_template(ctx, name, pat, rep, kwargs, tags, m, s, rng, numbering=rng.random() < .3)
         if dp and rng.random() < .3:
             name, rule = rng.choice(dp)
